@@ -29,11 +29,12 @@ EXPLANATION = (
     "equality, junction configurations.")
 EXPLANATION += (' R-C04-6: in the multi-point path the representative sequence handed to the reversal detection and the load-step table indexed with the detected positions are both in order of appearance (order-class analysis; a key-sorted groupby/unique is a violation).')
 EXPLANATION += (' R-C04-7: the junction of the two passes is handled by _new_turns: the kept sample tail starts exactly at the last turning point found (or at 0), is cut from the analysed array, and the global-index offset uses head and tail before they are updated (shared with R-C01-2).')
+EXPLANATION += (' R-C04-8: the HCM case decisions use no relative tolerance (shared with R-C05-10), and nothing cached on the FKM-nonlinear recorder or detector survives a later recording call (memo rule: hand-written `if self._x is None` caches and caching decorators).')
 ASSUMPTIONS = ["the caller replays in pass 2 only loads of pass 1 (a fact about the caller's data)"]
 
 
 def run(ctx):
-    for r in (_r1, _r2, _r3, _r5, _r6, _r7):
+    for r in (_r1, _r2, _r3, _r5, _r6, _r7, _r8):
         ctx.attempt(r)
 
 
@@ -174,6 +175,20 @@ def _r2(ctx):
         ctx.holds(r, st[0], "recorder appends the pass number once per recorded row")
     else:
         ctx.violated(r, st[0] if st else r.node, "recorder does not append the pass number once per recorded hysteresis row")
+
+
+def _r8(ctx):
+    """What is counted must not depend on tolerances or on when the collective is read: (a) the HCM case decisions compare
+    load ranges exactly up to a literal round-off guard (shared with R-C05-10); (b) the recorder (and the detector) cache
+    nothing that a later record_* / process call does not invalidate (memo rule) - a collective read between the passes must
+    not hide the second pass."""
+    from .. import memo
+    from .c05 import _r10 as _tolerances
+    prog = ctx.prog
+    ctx.rule("R-C04-8", floor=4, what="HCM decisions without relative tolerances; recorder/detector caches invalidated by every recording call")
+    _tolerances(ctx, own_rule=False)
+    memo.run_rule(ctx, classes=[prog.cls(REC[:-1]), prog.cls(D[:-1]),
+                                prog.cls("pylife.stress.rainflow.general:AbstractRecorder")])
 
 
 def _r7(ctx):
@@ -396,6 +411,12 @@ C = "FKMNonlinearDetector."
 
 def variants():
     out = []
+
+    def cached_collective(tree):
+        f = find_func(tree, "FKMNonlinearRecorder.collective")
+        f.decorator_list = [ast.parse("functools.cached_property", mode="eval").body]
+        return True
+    out.append(witness("recorder collective becomes a cached_property", RP, cached_collective, "R-C04-8"))
 
     def prefilter(tree):
         f = find_func(tree, "FKMNonlinearDetector.process_hcm_first")
